@@ -360,15 +360,25 @@ impl AsServer<'_> {
         demanded
             .into_iter()
             .filter_map(|addr| {
-                // Replace the demanded ip with the observed one.
-                let i = addr
-                    .iter()
+                // Addresses without an ip cannot be dialed back.
+                addr.iter()
                     .position(|p| matches!(p, Protocol::Ip4(_) | Protocol::Ip6(_)))?;
-                let mut addr = addr.replace(i, |_| Some(observed_ip.clone()))?;
+                // Replace *every* demanded ip with the observed one: transports resolve the
+                // innermost (last) ip, so rewriting only the first would let the requester
+                // choose the dial-back target.
+                let mut addr = addr
+                    .iter()
+                    .map(|p| match p {
+                        Protocol::Ip4(_) | Protocol::Ip6(_) => observed_ip.clone(),
+                        other => other,
+                    })
+                    .collect::<Multiaddr>();
 
-                let is_valid = addr.iter().all(|proto| match proto {
+                let last = addr.iter().count() - 1;
+                let is_valid = addr.iter().enumerate().all(|(i, proto)| match proto {
                     Protocol::P2pCircuit => false,
-                    Protocol::P2p(peer_id) => peer_id == peer,
+                    // The peer id is only accepted as the final component.
+                    Protocol::P2p(peer_id) => peer_id == peer && i == last,
                     _ => true,
                 });
 
